@@ -10,7 +10,7 @@ DISTINCT_RULE = (
     "cases = seeded traded-volume sequences (several levels per update, repeated/unchanged ladders) x 1-6 resting orders per strategy x 1-3 strategies x isolation on/off; "
     "distinct = (side, lone?, queue ahead?, filled?, #passive fragments<=3) per resting order and (#orders filled, #traded prices, isolation) per update with fills"
 )
-RULES = ["passive-fragment", "order-update", "lone-equality", "aggregate", "priority"]
+RULES = ["passive-fragment", "order-update", "lone-equality", "aggregate", "priority", "book-vs-file"]
 MINIMA = {"quick": {"rule_order-update": 20000, "rule_lone-equality": 4000, "rule_aggregate": 1500, "rule_passive-fragment": 2000, "rule_priority": 30}, "thorough": {"rule_order-update": 800000}}
 ASSUMPTIONS = [
     "traded ledger = positive deltas of cumulative trd per runner and price, read from the raw file lines",
@@ -43,12 +43,20 @@ def build(desc):
     # every 6th case: the strategy trades two or three markets one after the other in one run (what it did in an earlier market has no
     # bearing on its fills in a later one)
     nmk = (2, 3) if desc["idx"] % 6 == 1 else (1, 1)
+    filt = desc["idx"] % 8 == 5
+    if filt:
+        # a listener filter skips part of the recording (ladders left standing at suspensions, only some runners move per update): a
+        # resting order is still filled only by what the FILE shows as traded after it arrived
+        mp = dict(mp, p_keep_books=0.7, p_inplay=1.0, p_book_change=0.35, n_inplay=(5, 12), p_suspend_reopen=0.6)
+        nmk = (1, 1)
     case, snaps = simgen.gen_case(desc["seed"], desc["idx"], market_params=mp, script_params=sp, n_strategies=(1, 1) if lone else (1, 3), n_markets=nmk, salt=6)
     case["config"] = {"simulated_strategy_isolation": rng.random() < 0.7}
+    if filt:
+        case["listener_kwargs"] = dict(({"inplay": True}, {"seconds_to_start": 560}, {"inplay": True}, {"max_inplay_seconds": 4})[(desc["idx"] // 8) % 4])
     if desc["idx"] % 5 == 2:
         # explicit transactions executed more than once / kept open across updates (a request must still reach the exchange once)
         simgen.usage_variants(case, snaps, simgen.mk_rng(desc["seed"], desc["idx"], 606), p_batch=0.7, p_hold=0.5)
-    if desc["idx"] % 11 == 7 and not lone:
+    if desc["idx"] % 11 == 7 and not lone and not filt:
         # the same file delivered by two streams of one event group (a second strategy with its own listener filter): every traded
         # amount still exists once
         case["event_processing"] = True
@@ -103,5 +111,7 @@ def run(desc):
     if any(s_["name"] == "W" for s_ in case["strategies"]):
         two_stream_bound(tr, out, snaps)
         return out.result()
+    tr.listener_filters = tuple(case.get("listener_kwargs") or ())
+    O.book_at_arrival_matches_file(tr, out, snaps)
     O.c06_passive(tr, out, snaps, case)
     return out.result(sample=_sim.sample_of(case, tr) if desc["idx"] < 2 else None)
